@@ -16,7 +16,7 @@ struct Ctx {
 
 impl Ctx {
     fn over_budget(&self) -> bool {
-        self.evals > 4000 || self.start.elapsed().as_secs() > 120
+        self.evals > 4000 || self.start.elapsed().as_secs() > if self.code.ends_with("-hang") { 60 } else { 120 }
     }
 
     /// Some(event index) if the candidate still shows the same finding code.
@@ -56,10 +56,10 @@ impl Ctx {
                         return if status.code() == Some(1) { Some(last_ev.unwrap_or(0)) } else { None };
                     }
                     Ok(None) => {
-                        if st.elapsed().as_secs() > 60 {
+                        if st.elapsed().as_secs() > if self.code.ends_with("-hang") { 15 } else { 60 } {
                             let _ = child.kill();
                             let _ = child.wait();
-                            return if self.code == "C01-hang" { Some(0) } else { None };
+                            return if self.code.ends_with("-hang") { Some(0) } else { None };
                         }
                         std::thread::sleep(std::time::Duration::from_millis(5));
                     }
